@@ -209,6 +209,9 @@ func c09ServerScenario(prop, name string, frames []c2sFrame, negotiate bool, opt
 			n.Peer = DefaultPeer()
 			tunnelpb.RegisterTunnelServiceServer(n, h.Service())
 			w.Scripts["*"] = &HandlerScript{ID: "any", Tag: 9, Ops: []HOp{{K: "recvall"}, {K: "return", Size: 3}}}
+			// the handler of stream id 1 stays parked after the end of its requests, so the
+			// stream remains registered and frames that follow its half-close still reach it
+			w.Scripts["s1"] = &HandlerScript{ID: "s1", Tag: 8, KeepGoing: true, Ops: []HOp{{K: "recvall"}, {K: "waitctx"}, {K: "return", Size: 3}}}
 			rc, err := w.OpenRawClient(n, negotiate)
 			if err != nil {
 				return
@@ -321,6 +324,26 @@ func c09Scenarios(tier string) []*Scenario {
 		scs = append(scs, c09ServerScenario("C09", "c09/h1s/"+strings.Join(nm, ","), fr, true, Options{Level: "io", Bound: b}))
 	}
 	scs = append(scs, c09ClientScenarios(tier)...)
+	// "... or make it buffer more than one flow-control window of data per open stream": the
+	// overrunning raw peers of C06 (both roles, including peers that announce absurd windows
+	// for their own direction) are part of this property's hostile inputs
+	for _, sc := range c06Scenarios(tier) {
+		if !strings.HasPrefix(sc.Name, "c06/raw-") {
+			continue
+		}
+		c := *sc
+		orig := sc.Check
+		c.Name, c.Prop = "c09/bloat/"+strings.TrimPrefix(sc.Name, "c06/"), "C09"
+		c.Check = func(w *World, x *Exec) []Violation {
+			vs := orig(w, x)
+			for i := range vs {
+				vs[i].Prop = "C09"
+				vs[i].Sig = "bloat:" + vs[i].Sig
+			}
+			return vs
+		}
+		scs = append(scs, &c)
+	}
 	return scs
 }
 
